@@ -77,8 +77,8 @@ def cases():
     """(label, input names (template -> name in work/data), runner(work) -> list of allowed output prefixes)"""
     out = []
 
-    def add(label, inputs, fn, allowed=()):
-        out.append((label, inputs, fn, list(allowed)))
+    def add(label, inputs, fn, allowed=(), prepare=None):
+        out.append((label, inputs, fn, list(allowed), prepare))
     P = "data/plt00010"
     Q = "data/plt00020"
     for st in ("rel", "abs", "trail"):
@@ -273,7 +273,91 @@ def cases():
         os.remove(os.path.join(work, P, "Level_0", "Cell_H"))
         Chef(P, recipe=RECIPE, outfile="res/cooked", serial=True).cook()
     add("chef/unreadable-input", {"plt00010": "plt00010"}, chef_no_header, [os.path.join("res/cooked")])
+
+    # ---- inputs the tool cannot read, by KIND of damage (done by `prepare` before the run is observed): a binary file cut short
+    #      inside the data of its last FAB (all but two values of it gone: every field of that box is short), cut by one value
+    #      (tools that read every field), a missing binary file, a missing level header, a global header cut in half
+    def damage(kind, which):
+        def prep(work):
+            root = os.path.join(work, "data", which)
+            lv = 0 if kind.endswith("L0") else 1
+            if kind.startswith("deep") or kind.startswith("cut8"):
+                C = alpha.parse_cell_h(root, "Level_%d" % lv, want_mm=False)
+                files = sorted(set(fn for fn, _ in C["fod"]))
+                pth = os.path.join(root, "Level_%d" % lv, files[-1])
+                raw = open(pth, "rb").read()
+                i = raw.rfind(b"FAB ")
+                j = raw.index(b"\n", i)
+                with open(pth, "r+b") as f:
+                    f.truncate(j + 1 + 16 if kind.startswith("deep") else len(raw) - 8)
+            elif kind == "nobin":
+                C = alpha.parse_cell_h(root, "Level_1", want_mm=False)
+                os.remove(os.path.join(root, "Level_1", C["fod"][0][0]))
+            elif kind == "nocellh":
+                os.remove(os.path.join(root, "Level_1", "Cell_H"))
+            elif kind == "hdrcut":
+                hp = os.path.join(root, "Header")
+                txt = open(hp).read()
+                open(hp, "w").write(txt[:len(txt) // 2])
+            else:
+                raise core.MachineryError(kind)
+        return prep
+
+    def t_colander(work):
+        from amr_kitchen.colander import Colander
+        Colander(plotfile=P, output="res/strained", variables=["all"]).strain()
+
+    def t_combine(work):
+        from amr_kitchen import PlotfileCooker
+        from amr_kitchen.combine import combine
+        combine(PlotfileCooker(P), PlotfileCooker(Q), pltout="res/combined")
+
+    def t_chef(serial):
+        def run_(work):
+            from amr_kitchen.chef import Chef
+            Chef(P, recipe=RECIPE, outfile="res/cooked", serial=serial).cook()
+        return run_
+
+    def t_mand(fmt):
+        def run_(work):
+            from amr_kitchen.mandoline import Mandoline
+            Mandoline(P, fields=["u", "w"], serial=(fmt == "array"), verbose=0).slice(normal=0, pos=None, outfile="res/slice", fformat=fmt)
+        return run_
+
+    def t_mand2d(work):
+        from amr_kitchen.mandoline import Mandoline
+        Mandoline("data/plt2d", fields=["u"], serial=True, verbose=0).slice(outfile="res/flat", fformat="array")
+
+    def t_whip(work):
+        from amr_kitchen.whip import cli
+        argv_run(cli.main, ["whip", "-v", "v", "-o", "res/grid", "-y", P])
+
+    def t_pestle(work):
+        from amr_kitchen import PlotfileCooker
+        from amr_kitchen.pestle import volume_integral
+        volume_integral(PlotfileCooker(P, ghost=True), "u")
+    one = {"plt00010": "plt00010"}
+    two = {"plt00010": "plt00010", "plt00020": "plt00020"}
+    ALLF = ["deepL0", "deepL1", "cut8L0", "cut8L1", "nobin", "nocellh", "hdrcut"]       # tools that read every field of every box
+    SOME = ["deepL0", "deepL1", "nobin", "nocellh", "hdrcut"]
+    for kind in ALLF:
+        add("colander/unreadable-input/" + kind, one, t_colander, ["res/strained"], damage(kind, "plt00010"))
+        add("combine/unreadable-input-1/" + kind, two, t_combine, ["res/combined"], damage(kind, "plt00010"))
+        add("combine/unreadable-input-2/" + kind, two, t_combine, ["res/combined"], damage(kind, "plt00020"))
+        add("chef/unreadable-input/serial/" + kind, one, t_chef(True), ["res/cooked"], damage(kind, "plt00010"))
+        add("chef/unreadable-input/parallel/" + kind, one, t_chef(False), ["res/cooked"], damage(kind, "plt00010"))
+    for kind in SOME:
+        add("mandoline/array/unreadable-input/" + kind, one, t_mand("array"), ["res/slice"], damage(kind, "plt00010"))
+        add("mandoline/plotfile/unreadable-input/" + kind, one, t_mand("plotfile"), ["res/slice"], damage(kind, "plt00010"))
+        add("mandoline2d/unreadable-input/" + kind, {"plt2d": "plt2d"}, t_mand2d, ["res/flat"], damage(kind, "plt2d"))
+        add("whip/unreadable-input/" + kind, one, t_whip, ["res/grid"], damage(kind, "plt00010"))
+        add("pestle/unreadable-input/" + kind, one, t_pestle, [], damage(kind, "plt00010"))
     return out
+
+
+def doomed(label):
+    """The run is asked something it cannot honour: it must not return normally (FsIO!RequestRefused)."""
+    return "unknown-field" in label or "unreadable-input" in label
 
 
 # ---------------------------------------------------------------------------- one recorded run
@@ -283,7 +367,7 @@ def snapshot(paths):
 
 
 def one_run(chk, templates, case, fault_at, tid, late=False):
-    label, inputs, fn, allowed_rel = case
+    label, inputs, fn, allowed_rel, prepare = case
     work = chk.tmp()
     os.makedirs(os.path.join(work, "data"))
     os.makedirs(os.path.join(work, "res"))
@@ -292,6 +376,9 @@ def one_run(chk, templates, case, fault_at, tid, late=False):
         dst = os.path.join(work, "data", wname)
         shutil.copytree(os.path.join(templates, tname), dst)
         in_roots.append(dst)
+    if prepare:
+        prepare(work)               # the harness's own damage to the copy, before anything is observed
+    one_run.before = [alpha.tree_digest(r) for r in in_roots] if prepare else None
     old_cwd = os.getcwd()
     os.chdir(work)
     outcome = "ok"
@@ -343,21 +430,24 @@ def record(chk, templates, case, fault_at, tid, lines, meta, late=False):
     # inputs compared with the templates (the unreadable-input cases delete a file themselves before
     # calling the tool: that deletion is the harness's, it shows as a Remove event we skip)
     same = True
-    for r, (tname, wname) in zip(in_roots, case[1].items()):
+    for ri, (r, (tname, wname)) in enumerate(zip(in_roots, case[1].items())):
         a, b = alpha.tree_digest(r), alpha.tree_digest(os.path.join(templates, tname))
-        if "unreadable-input" in label:
+        if one_run.before is not None:
+            b = one_run.before[ri]          # the input as the harness handed it over (damaged on purpose)
+            a2 = a
+        elif "unreadable-input" in label:
             b = {k: v for k, v in b.items() if k in a}
             a2 = a
         else:
             a2 = a
         if a2 != b:
             same = False
-    lines.append({"tid": tid, "ev": "Begin", "fault": fault_at or 0})
+    lines.append({"tid": tid, "ev": "Begin", "fault": fault_at or 0, "doomed": doomed(label)})
     for e in events:
         root, rel = classify(e["path"], work, in_roots, allowed)
         if root is None:
             continue
-        if "unreadable-input" in label and e["ev"] == "Remove" and root == "in1":
+        if "unreadable-input" in label and case[4] is None and e["ev"] == "Remove" and root == "in1":
             continue
         if e["ev"] == "WP":
             lines.append({"tid": tid, "ev": "WritePoint", "root": root, "rel": rel, "faulted": bool(e["faulted"])})
